@@ -707,4 +707,18 @@ StartTypeOK == verdict \in { "none", "refuse", "start" }
 --------------------------------------------------------------------------
 CredsSpec == CredsInit /\ [][CredsNext]_vars
 StartSpec == StartInit /\ [][StartNext]_vars
+--------------------------------------------------------------------------
+(* What an omitted key means (CONFIGURATION.md, "Settings Reference"): the value the endpoint runs with when
+   the settings file does not mention the key.  Read by main.rs through serde defaults, by the builder and the
+   wizard through Settings::default_*: all three must agree with the document.                              *)
+DocumentedDefaults == [
+    listen_address |-> "0.0.0.0:443",
+    ipv6_available |-> TRUE,
+    allow_private_network_connections |-> FALSE,
+    tls_handshake_timeout_secs |-> 10,
+    client_listener_timeout_secs |-> 600,
+    connection_establishment_timeout_secs |-> 30,
+    tcp_connections_timeout_secs |-> 604800,
+    udp_connections_timeout_secs |-> 300,
+    speedtest_enable |-> FALSE ]
 =============================================================================
